@@ -338,7 +338,10 @@ func (c *cluster) deploy(n int, ckpt *snapshotpb.JobCheckpoint) error {
 	// Start() creates the event batcher asynchronously; HandleDeploy and HandleEvent need it
 	asm := jobs.NewAssembly(protoOps, nil)
 	cfg := &config.Config{WorkerCount: n, KeyGroupCount: c.kgc, WorkingStorageLocation: c.workDir()}
-	return asm.Deploy(cfg, ckpt)
+	if err := asm.Deploy(cfg, ckpt); err != nil {
+		return err
+	}
+	return c.waitTasks() // the WAL replay may have rotated memtables
 }
 
 // quiesce waits for the background DKV tasks of every operator ever deployed in this case (a flush or compaction
@@ -346,9 +349,7 @@ func (c *cluster) deploy(n int, ckpt *snapshotpb.JobCheckpoint) error {
 func (c *cluster) quiesce() {
 	for _, k := range c.keep {
 		if o, ok := k.(*operator.Operator); ok {
-			if db := o.VerifDKV(); db != nil {
-				db.WaitOnTasks()
-			}
+			waitDB(o.VerifDKV())
 		}
 	}
 }
@@ -360,10 +361,24 @@ func (c *cluster) stopAll() {
 	c.cancels = nil
 }
 
+func waitDB(db *dkv.DB) (err error) {
+	if db == nil {
+		return nil
+	}
+	// the flush / compaction queues are process-wide: a task of one database may run on a goroutine of another
+	// one, so a Wait can meet an Add; that misuse panic of the WaitGroup is a harness artefact, retried by the caller
+	defer func() {
+		if p := recover(); p != nil {
+			err = nil
+		}
+	}()
+	return db.WaitOnTasks()
+}
+
 func (c *cluster) waitTasks() error {
-	for _, a := range c.ops {
-		if db := a.real.VerifDKV(); db != nil {
-			if err := db.WaitOnTasks(); err != nil {
+	for pass := 0; pass < 3; pass++ {
+		for _, a := range c.ops {
+			if err := waitDB(a.real.VerifDKV()); err != nil {
 				return err
 			}
 		}
@@ -371,8 +386,13 @@ func (c *cluster) waitTasks() error {
 	return nil
 }
 
+// send delivers one event and then lets the background tasks of THAT operator's database finish, so that at any
+// moment at most one database has flush / compaction work (no scheduling freedom, reproducible table layouts)
 func (c *cluster) send(i int, ev *workerpb.Event) error {
-	return c.ops[i].real.HandleEvent(context.Background(), "sr0", ev)
+	if err := c.ops[i].real.HandleEvent(context.Background(), "sr0", ev); err != nil {
+		return err
+	}
+	return waitDB(c.ops[i].real.VerifDKV())
 }
 
 // checkpoint all operators; returns the acknowledgements in operator order
